@@ -125,16 +125,18 @@ impl Path {
         let msg = format!(
             "Unable to add entry \"{entry}\" to path since it would exceed the maximum supported path length of {PATH_LENGTH}."
         );
-        if !self.is_empty()
-            && self.as_bytes()[self.len() - 1] != iceoryx2_pal_configuration::PATH_SEPARATOR
+        let mut new_path = *self;
+        if !new_path.is_empty()
+            && new_path.as_bytes()[new_path.len() - 1] != iceoryx2_pal_configuration::PATH_SEPARATOR
         {
-            fail!(from self, when self.push(iceoryx2_pal_configuration::PATH_SEPARATOR),
+            fail!(from self, when new_path.push(iceoryx2_pal_configuration::PATH_SEPARATOR),
                 "{}", msg);
         }
 
-        fail!(from self, when self.push_bytes(entry.as_bytes()),
+        fail!(from self, when new_path.push_bytes(entry.as_bytes()),
             "{}", msg);
 
+        *self = new_path;
         Ok(())
     }
 
